@@ -147,7 +147,7 @@ def parseUtxo? (s : String) : Option UTXO :=
 def parseHist? (s : String) : Option (List Response) :=
   if s == "-" then some [] else
   (s.splitOn ";").mapM fun r =>
-    if r == "x" then some .exhausted
+    if r == "x" || r == "w" then some .exhausted   -- "w": the exhaustion sentinel wrapped with context (errors.Is)
     else if r == "e" then some .failed
     else if r == "b" then some (.batch [])
     else if r.startsWith "b=" then ((r.drop 2).toString.splitOn "|").mapM parseUtxo? |>.map .batch
@@ -211,7 +211,13 @@ def c12Fund (args : List String) (impl : String) : String × String :=
                  | some .exhausted => "true"
                  | none => "true"
                  | some _ => "false:insufficient-funds-without-exhaustion")
-            else "true"
+            else
+              -- the converse: when the supplier's last answer was "exhausted", the error is insufficient funds
+              (match calls.length with
+               | k + 1 => match hist[k]? with
+                 | some .exhausted => "false:exhaustion-not-reported-as-insufficient-funds"
+                 | _ => "true"
+               | 0 => "true")
       (model, pred)
     | _, _, _ => ("bad-op", "n/a")
   | _ => ("bad-op", "n/a")
